@@ -270,6 +270,7 @@ fn e1_plan(prop: P, tier: &Tier) -> Vec<PlanItem> {
                 v.push(item(Box::new(Decorated::new_with("F5 soft skeletons", soft_skeletons(), f5k(q), false, &f5_filter)), two_axes(), if q { 1 } else { 2 }));
                 v.push(item(Box::new(F11), two_axes(), 1));
                 v.push(item(Box::new(F12), two_axes(), 1));
+                v.push(item(Box::new(F13), two_axes(), 1));
             }
             if prop == P::C02 {
                 v.push(item(Box::new(F11), two_axes(), 1));
@@ -324,6 +325,7 @@ fn e1_plan(prop: P, tier: &Tier) -> Vec<PlanItem> {
                 ));
                 v.push(item(f4(tier), named(vec![("sync", sync_cfg())]), if q { 8 } else { 1 }));
                 v.push(item(Box::new(F11), two_axes(), 1));
+                v.push(item(Box::new(F13), two_axes(), 1));
             }
             if !q {
                 v.push(item(Box::new(Grid::f1_prime()), named(vec![("sync", sync_cfg())]), 1));
@@ -387,6 +389,7 @@ fn e1_plan(prop: P, tier: &Tier) -> Vec<PlanItem> {
             // under the transient decisions of one soft run and needed again by a later one
             item(Box::new(F11), hint_masks(&[0b001000, 0b010000, 0b011000]), 1),
             item(Box::new(F12), two_axes(), 1),
+            item(Box::new(F13), two_axes(), 1),
         ],
     }
 }
